@@ -351,6 +351,9 @@ type replayDoc struct {
 }
 
 func journalPath() string {
+	if Race() { // (the race shards run next to the plain ones with the same shard numbers)
+		return filepath.Join(OutDir(), fmt.Sprintf("current-race-%d.json", Shard()))
+	}
 	return filepath.Join(OutDir(), fmt.Sprintf("current-%d.json", Shard()))
 }
 
